@@ -141,7 +141,7 @@ def mpo_arith(ctx, idx, rng):
         _rel(ctx, f'mpo-{op}.dense', refs.dense_operator(r.A), want, sc, detail)
         dm = r.as_matrix()
         _rel(ctx, 'as_matrix.dense-format', dm, refs.dense_operator(r.A), sc, detail)
-        sm = r.as_matrix(sparse_format=True)
+        sm = r.as_matrix(sparse_format=(True, np.bool_(True), 1)[idx % 3])
         ctx.ok('as_matrix.sparse-type', sparse.issparse(sm), f'sparse_format=True returned {type(sm).__name__}', detail)
         if sparse.issparse(sm):
             _rel(ctx, 'as_matrix.sparse==dense', sm.toarray(), dm, sc, detail)
